@@ -68,31 +68,19 @@ def stripPrefix : Str → Str → Option Str
   | [], _ :: _ => none
   | c :: cs, p :: ps => if c == p then stripPrefix cs ps else none
 
-/-- One pass of `str::lines`: the first line (without its terminator) and the
-rest after the terminator.  A line ends at `\n`; a `\r` immediately before that
-`\n` is not part of the line.  -/
-def splitLine : Str → Str × Option Str
-  | [] => ([], none)
-  | '\n' :: rest => ([], some rest)
-  | ['\r', '\n'] => ([], some [])
-  | '\r' :: '\n' :: rest => ([], some rest)
-  | c :: rest =>
-    let (l, r) := splitLine rest
-    (c :: l, r)
+/-- `str::lines`, with the current line accumulated in reverse.  A line ends at `\n`; one `\r`
+immediately before that `\n` is not part of the line.  The final line needs no terminator and
+keeps a trailing `\r`; a trailing terminator does not produce an extra empty line. -/
+def stripCr : Str → Str
+  | '\r' :: acc => acc
+  | acc => acc
 
-/-- `str::lines`, as a list.  The final line needs no terminator; a trailing
-terminator does not produce an extra empty line.  (Per std: a bare trailing
-`\r` without `\n` stays in the last line.) -/
-def lines (s : Str) : List Str :=
-  go s s.length
-where
-  go : Str → Nat → List Str
-    | [], _ => []
-    | _, 0 => []
-    | s, fuel + 1 =>
-      match splitLine s with
-      | (l, none) => [l]
-      | (l, some rest) => l :: go rest fuel
+def linesAux : Str → Str → List Str
+  | [], acc => if acc.isEmpty then [] else [acc.reverse]
+  | c :: rest, acc =>
+    if c = '\n' then (stripCr acc).reverse :: linesAux rest [] else linesAux rest (c :: acc)
+
+def lines (s : Str) : List Str := linesAux s []
 
 /-- join with a separator -/
 def join (sep : Str) : List Str → Str
